@@ -460,6 +460,16 @@ func runPRNGExt(c *eng.Ctx, variant int) {
 			n1, e1 := p.Read(x)
 			n2, e2 := q.Read(y)
 			c.Check(n1 == 1024 && n2 == 1024 && e1 == nil && e2 == nil && bytes.Equal(x, y), pre+"|oversized-key|accepted-but-not-reproducible", nil)
+			// an accepted key is the key: it is reported back as given, and another key that differs from it only
+			// beyond the 64th byte is another key (distinct keys give unrelated streams)
+			c.Check(bytes.Equal(p.Key(), long), pre+".Key|oversized-key|not-the-key-given", nil)
+			other := append([]byte(nil), long...)
+			other[len(other)-1] ^= 0x5a
+			if o, err := sampling.NewKeyedPRNG(other); err == nil {
+				z := make([]byte, 1024)
+				o.Read(z)
+				c.Check(!bytes.Equal(x, z), pre+"|oversized-key|keys-equal-on-64-bytes-give-one-stream", nil)
+			}
 		})
 	}
 	// 5. two generators made by NewPRNG are keyed differently (64-byte keys)
